@@ -110,6 +110,7 @@ def prog_json(f):
 
 
 _last_status = [None]
+_last_xmax = [None]
 _raised = []
 
 
@@ -130,6 +131,10 @@ def solve_formula(f, solver):
         _last_status[0] = str(getattr(sol, 'status', None))
         return None
     _last_status[0] = str(sol.status)
+    try:
+        _last_xmax[0] = float(np.max(np.abs(np.asarray(sol.x, dtype=float)))) if np.size(sol.x) else 0.0
+    except Exception:
+        _last_xmax[0] = None
     return float(sol.objval)
 
 
@@ -153,9 +158,12 @@ def _replay(job, phase):
     solver = job['solver']
     out['solver'] = solver
     out['pval'] = solve_formula(P, solver)
+    out['pstatus'] = _last_status[0]
+    out['pxmax'] = _last_xmax[0] if out['pval'] is not None else None
     out['dval'] = solve_formula(D, solver)
     out['dstatus'] = _last_status[0]
-    if out['pval'] is not None and out['dval'] is None and job.get('second'):
+    inexact = any('close' in (st_ or '').lower() or 'inaccurate' in (st_ or '').lower() for st_ in (out['pstatus'], out['dstatus']))
+    if out['pval'] is not None and (out['dval'] is None or inexact) and job.get('second'):
         out['dval2'] = solve_formula(D, job['second'])
         out['pval2'] = solve_formula(P, job['second'])
     # ---- second stage (history): the model is extended AFTER its dual was produced; the dual requested then must be
